@@ -189,6 +189,12 @@ def exhaustive(tier):
             for where in ("top", "deeper"):
                 for route in ("assign", "ctor", "append", "insert", "setitem", "extend"):
                     yield {"mode": "offered-instance", "configtype": configtype, "place": place, "where": where, "route": route}
+    # typed dicts whose keys are not strings (tuples of every length, numbers, booleans, bytes, None): the entry is named
+    # by str(key), through every route and placement
+    for key in ("tuple2", "tuple1", "tuple0", "tuple3", "int", "float", "bool", "bytes", "none", "frozenset", "str", "str-dotted"):
+        for route in ("setkey", "update", "setdefault", "assign-dict", "load_tree", "setitem-path"):
+            for place in ("root", "nested", "list-item"):
+                yield {"mode": "odd-dict-key", "key": key, "route": route, "place": place}
     # ONE config type (made from a schema that has a key of its own, from a sub-schema of a template, or from a bare schema)
     # declared under several field keys: a rejection names the field key it happened under, in every state of the sub-config
     for origin in ("keyed-schema", "template-subschema", "bare-schema"):
@@ -287,6 +293,67 @@ def _offered_instance_case(case, R):
     got = err.ref_path
     R.check(got == want, "path", site, lambda: "offered item instance with %s unset: error names %r, the offending field is %r" % (bad_field, got, want))
     R.check(str(err).startswith(got), "text", "starts-with-path", lambda: "message %r does not start with the path %r" % (str(err)[:120], got))
+
+
+def _odd_dict_key_case(case, R):
+    cc = sandbox._state["cc"]
+    key = {"tuple2": (2, 2), "tuple1": (5,), "tuple0": (), "tuple3": ("a", "b", "c"), "int": 5, "float": 1.5, "bool": True, "bytes": b"k", "none": None,
+           "frozenset": frozenset([1]), "str": "Key", "str-dotted": "x.y"}[case["key"]]
+    route, place = case["route"], case["place"]
+    schema = cc.Schema()
+    if place == "root":
+        schema.limits = cc.DictField(None, cc.IntField(max=10))
+        prefix, owner = "limits", (lambda c: c)
+    elif place == "nested":
+        schema.a.b.limits = cc.DictField(None, cc.IntField(max=10))
+        prefix, owner = "a.b.limits", (lambda c: c.a.b)
+    else:
+        item = cc.Schema()
+        item.limits = cc.DictField(None, cc.IntField(max=10))
+        schema.rows = cc.ListField(item)
+        prefix, owner = "rows[1].limits", (lambda c: c.rows[1])
+    cfg = schema()
+    if place == "list-item":
+        cfg.rows = [{}, {}]
+    R.label("odd-dict-key", "odd-dict-key:" + case["key"])
+    R.nontrivial = not isinstance(key, str)
+    want = "%s[%s]" % (prefix, str(key))
+    try:
+        if route in ("setkey", "update", "setdefault"):
+            owner(cfg).limits = {}
+            d = owner(cfg).limits
+            if route == "setkey":
+                d[key] = 99
+            elif route == "update":
+                d.update({key: 99})
+            else:
+                d.setdefault(key, 99)
+        elif route == "assign-dict":
+            owner(cfg).limits = {key: 99}
+        elif route == "setitem-path":
+            if place == "list-item":
+                cfg.rows[1]["limits"] = {key: 99}
+            else:
+                cfg[prefix] = {key: 99}
+        else:
+            tree = {"limits": {key: 99}}
+            cfg.load_tree(tree if place == "root" else {"a": {"b": tree}} if place == "nested" else {"rows": [{}, tree]})
+        err = None
+    except Exception as exc:
+        err = exc
+    site = "odd-dict-key:%s" % route
+    if not R.check(err is not None, "must-raise", site, "99 was accepted by IntField(max=10)"):
+        return
+    if not R.check(isinstance(err, cc.ValidationError), "type", site + ":" + type(err).__name__, lambda: "key %r: rejection surfaced as %r" % (key, err)):
+        return
+    got = err.ref_path
+    R.check(got == want, "path", site, lambda: "entry with the key %r rejected via %s: error names %r, the offending entry is %r" % (key, route, got, want))
+    try:
+        text = str(err)
+    except Exception as exc:
+        R.fail("text", site + ":str-raises", "str(err) raised %r" % (exc,))
+        return
+    R.check(text.startswith(got or "\x00"), "text", "starts-with-path", lambda: "message %r does not start with the path %r" % (text[:120], got))
 
 
 def _keyed_configtype_case(case, R):
@@ -680,6 +747,8 @@ def _takeover_case(case, R):
 def run_case(case, R):
     if case.get("mode") == "takeover":
         return _takeover_case(case, R)
+    if case.get("mode") == "odd-dict-key":
+        return _odd_dict_key_case(case, R)
     if case.get("mode") == "keyed-configtype":
         return _keyed_configtype_case(case, R)
     if case.get("mode") == "include-rejection":
